@@ -668,7 +668,10 @@ def run_real(X, texts, mode, plain=False):
 
 def run_drv(X, texts, mode):
     lines = ["%s %s" % (mode, hx(t)) for t in texts]
-    out = lexgen.run_sharded([X.ck.drv_path()], lines)
+    try:
+        out = lexgen.run_sharded([X.ck.drv_path()], lines, timeout=400)
+    except subprocess.TimeoutExpired:
+        raise common.Broken("drv_c12 %s did not finish %d inputs in 400 s" % (mode, len(texts)))
     return [parse_drv(l) for l in out]
 
 
@@ -758,6 +761,8 @@ def examine(X, texts, label, expect=None, asan=None):
         return examine1(X, texts, label, expect, asan)
     finally:
         X.secs[label] = round(X.secs.get(label, 0) + time.time() - t0, 1)
+        if os.environ.get("C12_TIMING"):
+            print("stage", label, X.secs[label], file=__import__("sys").stderr)
 
 
 def examine1(X, texts, label, expect=None, asan=None):
@@ -911,7 +916,7 @@ def shrink_text(text, bad, budget=300):
 # ----------------------------------------------------------------------------- reference vs gcc/clang
 def cpp_run(cmd, path):
     r = subprocess.run(cmd + [path], stdout=subprocess.PIPE, stderr=subprocess.PIPE)
-    return r.returncode, r.stdout, r.stderr
+    return r.returncode, r.stdout[:400000], r.stderr[:2000]
 
 
 GCC = ["gcc", "-E", "-P", "-undef", "-nostdinc", "-std=c11", "-pedantic-errors", "-x", "c"]
@@ -929,8 +934,12 @@ def validate_spec(X, texts, label):
     have_clang = bool(which("clang"))
     d = os.path.join(ck.scratch(), "cpp-" + label)
     os.makedirs(d, exist_ok=True)
+    S0 = run_drv(X, [t.encode("latin-1") for t in texts], "ref")
+    # units whose expansion is huge are of no use here (and gcc would print megabytes)
+    sel = [i for i in range(len(texts)) if S0[i].err != "fuel" and len(S0[i].toks) <= 2500]
+    texts = [texts[i] for i in sel]
+    S = [S0[i] for i in sel]
     bs = [t.encode("latin-1") for t in texts]
-    S = run_drv(X, bs, "ref")
     paths = []
     for k, b in enumerate(bs):
         p = os.path.join(d, "t%d.c" % k)
@@ -947,6 +956,8 @@ def validate_spec(X, texts, label):
     n = dis = 0
     for i, t in enumerate(texts):
         s = S[i]
+        if s.err in ("hashhash", "unsupported"):
+            continue           # valid C outside the implemented subset: nothing to validate
         if s.err == "fuel" or s.notes & {"nestUnspec", "dirInArgs"}:
             X.ninputs["spec-validation:unspecified-or-undefined(skipped)"] = \
                 X.ninputs.get("spec-validation:unspecified-or-undefined(skipped)", 0) + 1
